@@ -566,7 +566,10 @@ fn main() {
         "case = (generated program whose honest proof verifies, forgery class, table/position): alu-cell, \
          operand-lie-result-carried (one operand cell forged, the row's result re-derived and carried), const-cell, \
          public-cell, slot-everywhere (value changed on all tables, dependants not re-derived), \
-         const-substituted-and-rederived; non-trivial = the forged trace is labelled unsatisfying by the independent \
+         const-substituted-and-rederived; second stream (keys npo|..): row programs over Poseidon2/Poseidon1 permutation \
+         rows (sponge, chained, Merkle with witness-fed / private siblings, add_mmcs_verify, add_hash_slice) whose recorded \
+         rows are forged: chain-limb, ctl-limb, zero-limb (each plain and with the permutation output carried down the \
+         chain), bit-flip; labelled by an independent model of the row relation; non-trivial = the forged trace is labelled unsatisfying by the independent \
          op-relation evaluator; distinct by (setup, program, packing, class, site, index)",
     );
     rep.assume("the verifier under test is verify_all_tables on a proof produced with the honest CircuitProverData (preprocessed commitment unchanged)");
@@ -574,6 +577,12 @@ fn main() {
     if let Some(p) = &args.replay {
         let v: Value = serde_json::from_str(&std::fs::read_to_string(p).expect("replay file")).unwrap();
         let d = v["detail"].clone();
+        if d["stream"].as_str() == Some("npo") {
+            // cases of the non-primitive-row stream are replayed by the sibling binary
+            let exe = std::env::current_exe().unwrap().with_file_name("c04npo");
+            let st = std::process::Command::new(exe).arg("--replay").arg(p).status().expect("run c04npo");
+            std::process::exit(st.code().unwrap_or(2));
+        }
         let name = d["setup"].as_str().unwrap().to_string();
         let rs = with_setup!(name.as_str(), replay, &d);
         rep.add_all(rs);
@@ -593,5 +602,8 @@ fn main() {
         }
     });
     rep.add_all(rs);
+    // second stream: forged Poseidon permutation rows (sponge / chained / Merkle) of row programs and
+    // library gadgets, produced by the sibling binary c04npo
+    rep.add_all(import_emitted("c04npo", "C04", &args, |_| true));
     rep.finish(args.tier.pick(300, 8000));
 }
